@@ -125,6 +125,11 @@ type Scenario struct {
 	// scenario (Input and Programs then describe the colliding request and the
 	// sentinel).
 	Collision *Collision `json:"collision,omitempty"`
+	// WriteFault k > 0: the transport fails the k-th write the session makes
+	// while it is served, once (a transient condition); the input goes on.  A
+	// session that goes on serving after that owes every request its reply; one
+	// that ends with the write error is not judged.
+	WriteFault int `json:"write_fault,omitempty"`
 }
 
 var writeKinds = []string{
@@ -541,6 +546,9 @@ func gen(r *rand.Rand) Scenario {
 			sc.Input = append(sc.Input, raw)
 			sc.Programs = append(sc.Programs, Program{Ret: "nil"})
 		}
+	}
+	if !sc.WS && len(sc.AppSends) == 0 && r.Intn(30) == 0 {
+		sc.WriteFault = 1 + r.Intn(3)
 	}
 	if sc.WS {
 		// the peer's close frame ends the input (on this tree it is dispatched
@@ -1296,6 +1304,7 @@ func Run(c *core.Case, sc Scenario) {
 		return
 	}
 	input := st.input
+	wfAt := 0
 
 	st.appSends(p.S, -1)
 	p.Send(input)
@@ -1303,6 +1312,13 @@ func Run(c *core.Case, sc Scenario) {
 		p.ClosePeer()
 	}
 	p.Peer.CloseWrite()
+	if sc.WriteFault > 0 {
+		_, nw, _ := p.Lib.Ops()
+		fp := bufconn.NoFault()
+		fp.FailWrite = nw + sc.WriteFault
+		wfAt = fp.FailWrite
+		p.Lib.SetFault(fp)
+	}
 	// Serve runs on its own goroutine so that a serve loop that never comes
 	// back is decided by the quiescent-stall rule (all of the input is in the
 	// transport and the peer has closed: nothing more can arrive) and not by the
@@ -1348,6 +1364,19 @@ func Run(c *core.Case, sc Scenario) {
 		// dispatch order/identity is C08's subject; C07 cannot attribute replies here
 		c.Count("dispatch_mismatch_unjudged", 1)
 		return
+	}
+	if sc.WriteFault > 0 {
+		_, nw, _ := p.Lib.Ops()
+		if nw >= wfAt {
+			c.Count("write_faults_reached", 1)
+			if serveErr != nil {
+				// the session ended with (or after) the failed write: nothing more
+				// could be demanded of it
+				c.Count("write_fault_ended_serve", 1)
+				return
+			}
+			c.Count("write_fault_and_serve_went_on_to_the_end", 1)
+		}
 	}
 	judge(c, sc, p.Opts, st, p.Lib.Written(), serveErr, nil)
 }
